@@ -62,7 +62,7 @@ _add(
             r"TypeChecker::elaborate_define_variable$",
             r"TypeChecker::_elaborate_inner$",
         ],
-        min_arms=26,
+        min_arms=20,
     )
 )
 
